@@ -480,3 +480,54 @@ M('c07g-flag-reset-first-keep', 'C07', 'keep', TX,
 M('c07g-single-arm-uses-header-coding', 'C07', 'break', TX,
   'tx->connp->out_decompressor = htp_gzip_decompressor_create(tx->connp, tx->response_content_encoding_processing);\n            if (tx->connp->out_decompressor == NULL) return HTP_ERROR;',
   'tx->connp->out_decompressor = htp_gzip_decompressor_create(tx->connp, tx->response_content_encoding);\n            if (tx->connp->out_decompressor == NULL) return HTP_ERROR;', 'C07.g')
+
+# ---------------- C04.e / C04.f
+M('c04e-second-100-falls-through', 'C04', 'break', RS,
+  '        if (is100continue) {\n            if (connp->out_tx->seen_100continue != 0) {\n                htp_log(connp, HTP_LOG_MARK, HTP_LOG_ERROR, 0, "Already seen 100-Continue.");\n            }\n',
+  '        if (connp->out_tx->seen_100continue != 0) {\n            htp_log(connp, HTP_LOG_MARK, HTP_LOG_ERROR, 0, "Already seen 100-Continue.");\n            is100continue = 0;\n        }\n        if (is100continue) {\n', 'C04.e')
+M('c04e-log-hoisted-keep', 'C04', 'keep', RS,
+  '        if (is100continue) {\n            if (connp->out_tx->seen_100continue != 0) {\n                htp_log(connp, HTP_LOG_MARK, HTP_LOG_ERROR, 0, "Already seen 100-Continue.");\n            }\n',
+  '        if (is100continue && connp->out_tx->seen_100continue != 0) {\n            htp_log(connp, HTP_LOG_MARK, HTP_LOG_ERROR, 0, "Already seen 100-Continue.");\n        }\n        if (is100continue) {\n', None)
+M('c04f-wrap-uses-current-size', 'C04', 'break', 'htp/htp_list.c',
+  'return (void *) l->elements[idx - (l->max_size - l->first)];', 'return (void *) l->elements[idx - (l->current_size - l->first)];', 'C04.f')
+M('c04f-wrap-rewritten-keep', 'C04', 'keep', 'htp/htp_list.c',
+  'return (void *) l->elements[idx - (l->max_size - l->first)];', 'return (void *) l->elements[(l->first + idx) - l->max_size];')
+M('c04f-replace-modulus', 'C04', 'break', 'htp/htp_list.c',
+  'l->elements[(l->first + idx) % l->max_size] = e;', 'l->elements[(l->first + idx) % l->current_size] = e;', 'C04.f')
+
+# ---------------- C12.f / C12.g
+UT = 'htp/htp_util.c'
+M('c12f-u-fourth-digit-unchecked', 'C12', 'break', UT,
+  '                            if (isxdigit(data[rpos + 2]) && (isxdigit(data[rpos + 3]))\n                                    && isxdigit(data[rpos + 4]) && (isxdigit(data[rpos + 5]))) {\n                                // Decode a valid %u encoding\n                                c = decode_u_encoding_path(',
+  '                            if (isxdigit(data[rpos + 2]) && (isxdigit(data[rpos + 3]))\n                                    && isxdigit(data[rpos + 4]) && (isxdigit(data[rpos + 4]))) {\n                                // Decode a valid %u encoding\n                                c = decode_u_encoding_path(', 'C12.f')
+M('c12f-params-second-digit-unchecked', 'C12', 'break', UT,
+  '                    if ((isxdigit(data[rpos + 1])) && (isxdigit(data[rpos + 2]))) {\n                        // Decode %HH encoding.',
+  '                    if ((isxdigit(data[rpos + 1])) && (isxdigit(data[rpos + 1]))) {\n                        // Decode %HH encoding.', 'C12.f')
+M('c12f-checks-reordered-keep', 'C12', 'keep', UT,
+  '                    if ((isxdigit(data[rpos + 1])) && (isxdigit(data[rpos + 2]))) {\n                        // Decode %HH encoding.',
+  '                    if ((isxdigit(data[rpos + 2])) && (isxdigit(data[rpos + 1]))) {\n                        // Decode %HH encoding.')
+M('c12g-validate-reject-keeps-counter', 'C12', 'break', UT,
+  '                state = HTP_UTF8_ACCEPT;\n\n                // Advance over the consumed byte and reset the byte counter.\n                rpos++;\n                counter = 0;',
+  '                state = HTP_UTF8_ACCEPT;\n\n                // Advance over the consumed byte.\n                rpos++;', 'C12.g')
+M('c12g-reset-order-keep', 'C12', 'keep', UT,
+  '                state = HTP_UTF8_ACCEPT;\n\n                // Advance over the consumed byte and reset the byte counter.\n                rpos++;\n                counter = 0;',
+  '                counter = 0;\n                state = HTP_UTF8_ACCEPT;\n                rpos++;')
+M('c12g-continuation-resets', 'C12', 'break', UT,
+  '            default:\n                // Keep going; the character is not yet formed.\n                rpos++;\n                break;\n        }\n    }\n\n    // Did the input stream seem like a valid UTF-8 string?\n    if ((seen_valid) && (!(tx->flags & HTP_PATH_UTF8_INVALID))) {\n        tx->flags |= HTP_PATH_UTF8_VALID;\n    }\n}',
+  '            default:\n                // Keep going; the character is not yet formed.\n                rpos++;\n                counter = 0;\n                break;\n        }\n    }\n\n    // Did the input stream seem like a valid UTF-8 string?\n    if ((seen_valid) && (!(tx->flags & HTP_PATH_UTF8_INVALID))) {\n        tx->flags |= HTP_PATH_UTF8_VALID;\n    }\n}', 'C12.g')
+
+# ---------------- C01.i
+M('c01i-chain-cursor-not-advanced', 'C01', 'break', TX,
+  '                        comp->next->callback = htp_tx_res_process_body_data_decompressor_callback;\n                        comp = comp->next;',
+  '                        comp->next->callback = htp_tx_res_process_body_data_decompressor_callback;', 'C01.i')
+M('c01i-cursor-advanced-first-keep', 'C01', 'keep', TX,
+  '                        comp->next->callback = htp_tx_res_process_body_data_decompressor_callback;\n                        comp = comp->next;',
+  '                        comp = comp->next;\n                        comp->callback = htp_tx_res_process_body_data_decompressor_callback;')
+M('c01i-first-layer-cursor-not-set', 'C01', 'break', TX,
+  '                        tx->connp->out_decompressor->callback = htp_tx_res_process_body_data_decompressor_callback;\n                        comp = tx->connp->out_decompressor;',
+  '                        tx->connp->out_decompressor->callback = htp_tx_res_process_body_data_decompressor_callback;', 'C01.i')
+
+M('c07e-layer-counter-reset-per-token', 'C07', 'break', TX,
+  '            int layers = 0;\n            htp_decompressor_t *comp = NULL;', '            htp_decompressor_t *comp = NULL;', 'C07.e',
+  edits=[(TX, '            int layers = 0;\n            htp_decompressor_t *comp = NULL;', '            htp_decompressor_t *comp = NULL;'),
+         (TX, '                enum htp_content_encoding_t cetype = HTP_COMPRESSION_NONE;\n\n                /* check depth limit', '                enum htp_content_encoding_t cetype = HTP_COMPRESSION_NONE;\n                int layers = 0;\n\n                /* check depth limit')])
